@@ -1062,4 +1062,163 @@ theorem repairIndex_noMarks (readHeader : Nat → Option Nat → Nat → Option 
     · cases hg
     · simp only [List.mem_singleton] at hg; subst hg; rfl
 
+/-! ### the `dry_run` flag of `repair_index` (`repairFileD` / `repairIndexD`) -/
+
+theorem repairFileD_false (readAll : Bool) (st : RepairAcc) (f : IndexFile) :
+    repairFileD false readAll st f = repairFile readAll st f := by
+  unfold repairFileD repairFile
+  simp only
+  split <;> simp_all
+
+theorem repairIndexD_false (readHeader : Nat → Option Nat → Nat → Option (List IndexBlob)) (store : List (Nat × Nat))
+    (files : List IndexFile) (readAll : Bool) :
+    repairIndexD false readHeader store files readAll = repairIndex readHeader store files readAll := by
+  have h : repairFileD false readAll = repairFile readAll := by
+    funext st f; exact repairFileD_false readAll st f
+  have hb : ∀ (x : Option (List IndexBlob)) (g : List IndexBlob → IndexPack),
+      (x.bind fun a => some (g a)) = x.map g := by intro x g; cases x <;> rfl
+  unfold repairIndexD repairIndex
+  simp only [h, Bool.false_eq_true, if_false, hb]
+
+theorem repairFileD_dry_out (readAll : Bool) (st : RepairAcc) (f : IndexFile) :
+    (repairFileD true readAll st f).out = st.out ++ [f] := by
+  unfold repairFileD
+  simp only
+  split <;> simp_all
+
+theorem foldl_repairFileD_dry_out (readAll : Bool) (files : List IndexFile) (st : RepairAcc) :
+    (files.foldl (repairFileD true readAll) st).out = st.out ++ files := by
+  induction files generalizing st with
+  | nil => simp
+  | cons f fs ih => rw [List.foldl_cons, ih, repairFileD_dry_out]; simp
+
+theorem repairIndexD_dry (readHeader : Nat → Option Nat → Nat → Option (List IndexBlob)) (store : List (Nat × Nat))
+    (files : List IndexFile) (readAll : Bool) :
+    repairIndexD true readHeader store files readAll = files := by
+  unfold repairIndexD
+  simp [foldl_repairFileD_dry_out]
+
+theorem foldl_repairFileD_reads (d1 d2 readAll : Bool) (files : List IndexFile) (s1 s2 : RepairAcc)
+    (hr : s1.remaining = s2.remaining) (ht : s1.toRead = s2.toRead) :
+    (files.foldl (repairFileD d1 readAll) s1).remaining = (files.foldl (repairFileD d2 readAll) s2).remaining ∧
+    (files.foldl (repairFileD d1 readAll) s1).toRead = (files.foldl (repairFileD d2 readAll) s2).toRead := by
+  induction files generalizing s1 s2 with
+  | nil => exact ⟨hr, ht⟩
+  | cons f fs ih =>
+    rw [List.foldl_cons, List.foldl_cons]
+    apply ih
+    · simp only [repairFileD, hr, ht]
+    · simp only [repairFileD, hr, ht]
+
+theorem repairReadsD_dry_irrelevant (d1 d2 : Bool) (store : List (Nat × Nat)) (files : List IndexFile) (readAll : Bool) :
+    repairReadsD d1 store files readAll = repairReadsD d2 store files readAll := by
+  unfold repairReadsD
+  have h := foldl_repairFileD_reads d1 d2 readAll files { remaining := store, toRead := [], out := [] }
+    { remaining := store, toRead := [], out := [] } rfl rfl
+  simp only [h.1, h.2]
+
+/-! ### `checkedPacks` (`to_indexed_checked`) = the unmarked listings of the repaired index -/
+
+theorem checkOne_unchanged (readAll : Bool) (a : CheckAcc) (pd : IndexPack × Bool)
+    (h : (checkOne readAll a pd).changed = false) :
+    a.changed = false ∧ (checkOne readAll a pd).newIndex = a.newIndex.add pd.1 pd.2 := by
+  unfold checkOne at h ⊢
+  split
+  · rename_i heq; simp [heq] at h
+  · rename_i heq
+    simp only [heq] at h
+    split
+    · rename_i hc; simp [hc] at h
+    · rename_i hc; simp [hc] at h; exact ⟨h, rfl⟩
+
+theorem filter_const_true {α : Type} (l : List α) : l.filter (fun _ => true) = l := by
+  induction l <;> simp_all
+
+theorem filter_const_false {α : Type} (l : List α) : l.filter (fun _ => false) = [] := by
+  induction l <;> simp_all
+
+theorem foldl_checkOne_unchanged_lists (readAll : Bool) (l : List (IndexPack × Bool)) (a : CheckAcc)
+    (h : (l.foldl (checkOne readAll) a).changed = false) :
+    a.changed = false ∧
+    (l.foldl (checkOne readAll) a).newIndex.packs = a.newIndex.packs ++ (l.filter (fun pd => !pd.2)).map (·.1) ∧
+    (l.foldl (checkOne readAll) a).newIndex.packsToDelete = a.newIndex.packsToDelete ++ (l.filter (fun pd => pd.2)).map (·.1) := by
+  induction l generalizing a with
+  | nil => simpa using h
+  | cons pd l ih =>
+    rw [List.foldl_cons] at h ⊢
+    obtain ⟨hc, hp, hd⟩ := ih _ h
+    obtain ⟨hc', hn⟩ := checkOne_unchanged readAll a pd hc
+    refine ⟨hc', ?_, ?_⟩
+    · rw [hp, hn]; obtain ⟨p, d⟩ := pd; cases d <;> simp [IndexFile.add]
+    · rw [hd, hn]; obtain ⟨p, d⟩ := pd; cases d <;> simp [IndexFile.add]
+
+theorem repairFile_out_unmarked (st : RepairAcc) (f : IndexFile) :
+    unmarked (repairFile false st f).out = unmarked st.out ++
+      (f.allPacks.foldl (checkOne false)
+        { remaining := st.remaining, toRead := st.toRead, newIndex := { packs := [], packsToDelete := [] }, changed := false }).newIndex.packs := by
+  unfold repairFile
+  simp only
+  generalize hr : f.allPacks.foldl (checkOne false)
+    { remaining := st.remaining, toRead := st.toRead, newIndex := { packs := [], packsToDelete := [] }, changed := false } = r
+  cases hch : r.changed
+  · -- unchanged: the file stays, and the new index file lists what the file lists
+    have h := foldl_checkOne_unchanged_lists false f.allPacks _ (by rw [hr]; exact hch)
+    rw [hr] at h
+    have hp := h.2.1
+    simp only [IndexFile.allPacks, List.nil_append, List.filter_append, List.map_append] at hp
+    simp [unmarked, hp, List.filter_map, Function.comp_def, filter_const_true, filter_const_false]
+  · by_cases he : (r.newIndex.packs.isEmpty && r.newIndex.packsToDelete.isEmpty) = true
+    · simp only [he, if_true]
+      have : r.newIndex.packs = [] := by
+        simp only [Bool.and_eq_true, List.isEmpty_iff] at he; exact he.1
+      simp [this]
+    · simp [he, unmarked]
+
+theorem foldl_checkedFile_rel (files : List IndexFile) (c : RepairAcc × List IndexPack) (st : RepairAcc)
+    (hr : c.1.remaining = st.remaining) (ht : c.1.toRead = st.toRead) (hu : c.2 = unmarked st.out) :
+    (files.foldl checkedFile c).1.remaining = (files.foldl (repairFile false) st).remaining ∧
+    (files.foldl checkedFile c).1.toRead = (files.foldl (repairFile false) st).toRead ∧
+    (files.foldl checkedFile c).2 = unmarked (files.foldl (repairFile false) st).out := by
+  induction files generalizing c st with
+  | nil => exact ⟨hr, ht, hu⟩
+  | cons f fs ih =>
+    rw [List.foldl_cons, List.foldl_cons]
+    apply ih
+    · simp only [checkedFile, repairFile, hr, ht]
+    · simp only [checkedFile, repairFile, hr, ht]
+    · rw [repairFile_out_unmarked]
+      simp only [checkedFile, hr, ht, hu]
+
+theorem mapM_some_filterMap {α β : Type} (g : α → Option β) (l : List α) (r : List β) (h : l.mapM g = some r) :
+    l.filterMap g = r := by
+  induction l generalizing r with
+  | nil => simpa using h.symm
+  | cons a l ih =>
+    rw [List.mapM_cons] at h
+    cases hg : g a with
+    | none => simp [hg] at h
+    | some b =>
+      cases hl : l.mapM g with
+      | none => simp [hg, hl] at h
+      | some r' =>
+        simp [hg, hl] at h
+        subst h
+        simp [hg, ih r' hl]
+
+/-- If `to_indexed_checked` succeeds (every needed header is readable), the packs it indexes are exactly the unmarked listings of
+the index `repair_index` would write — same packs, same blobs, same order. -/
+theorem checkedPacks_eq_repaired (readHeader : Nat → Option Nat → Nat → Option (List IndexBlob)) (store : List (Nat × Nat))
+    (files : List IndexFile) (ps : List IndexPack) (h : checkedPacks readHeader store files = some ps) :
+    ps = unmarked (repairIndex readHeader store files false) := by
+  unfold checkedPacks at h
+  obtain ⟨h1, h2, h3⟩ := foldl_checkedFile_rel files ({ remaining := store, toRead := [], out := [] }, [])
+    { remaining := store, toRead := [], out := [] } rfl rfl (by simp [unmarked])
+  simp only [h1, h2, h3] at h
+  unfold repairIndex
+  simp only
+  generalize files.foldl (repairFile false) { remaining := store, toRead := [], out := [] } = st at h ⊢
+  obtain ⟨np, hm, rfl⟩ := Option.map_eq_some_iff.mp h
+  rw [mapM_some_filterMap _ _ _ hm]
+  cases np <;> simp [unmarked]
+
 end Rustic.Index
